@@ -51,7 +51,9 @@ def run(res, tier, seed, replay_case=None):
             # the last segment before the peer falls silent (it waits for our reply) is exactly one
             # read buffer long
             n = int(seg.split('-')[1])
-            script += [('bytes', blob[:len(blob) - n]), ('bytes', blob[len(blob) - n:])]
+            head = len(blob) - n
+            script += [('bytes', blob[k:min(k + 1000003, head)]) for k in range(0, head, 1000003)]
+            script += [('bytes', blob[head:])]
         elif isinstance(seg, str):
             # every segment ends d bytes into the header of a PDU (groups of 1..40 PDUs per segment)
             d = int(seg.split('+')[1])
